@@ -170,6 +170,53 @@ func (s *SelectStmt) ValidateFields(ctx *CheckCtx) error {
 			return err
 		}
 	}
+	// A field name defined in terms of itself can never be evaluated
+	for _, f := range s.Fields {
+		if err := checkFieldReferenceCycle(f, map[string]bool{}); err != nil {
+			return err
+		}
+	}
+	if s.Where != nil && s.Where.Expr != nil {
+		if err := checkFieldReferenceCycle(s.Where.Expr, map[string]bool{}); err != nil {
+			return err
+		}
+	}
+	return nil
+}
+
+func checkFieldReferenceCycle(expr Expression, visiting map[string]bool) error {
+	switch e := expr.(type) {
+	case *FieldReferenceExpr:
+		name := e.Name.Data
+		if visiting[name] {
+			return NewSyntaxError(e.GetPos(), "Field %s is defined by itself", name)
+		}
+		visiting[name] = true
+		err := checkFieldReferenceCycle(e.FieldExpr, visiting)
+		delete(visiting, name)
+		return err
+	case *BinaryOpExpr:
+		if err := checkFieldReferenceCycle(e.Left, visiting); err != nil {
+			return err
+		}
+		return checkFieldReferenceCycle(e.Right, visiting)
+	case *NotExpr:
+		return checkFieldReferenceCycle(e.Right, visiting)
+	case *FunctionCallExpr:
+		for _, arg := range e.Args {
+			if err := checkFieldReferenceCycle(arg, visiting); err != nil {
+				return err
+			}
+		}
+	case *ListExpr:
+		for _, item := range e.List {
+			if err := checkFieldReferenceCycle(item, visiting); err != nil {
+				return err
+			}
+		}
+	case *FieldAccessExpr:
+		return checkFieldReferenceCycle(e.Left, visiting)
+	}
 	return nil
 }
 
